@@ -55,6 +55,38 @@ def enc_input(case, delta):
     return [1 if case["linear"] else 0, max([0] + ks)] + body
 
 
+def enc_input_full(case, n):
+    body = to_dy(case["tbin"]) + enc_qlist(case["tsa"]) + enc_qlist(case["tsb"]) + enc_qlist(case["queries"])
+    ks = [to_dy(v)[1] for v in [case["tbin"]] + case["tsa"] + case["tsb"] + case["queries"]]
+    return [8, 1 if case["linear"] else 0, max([0] + ks), n] + body
+
+
+def parse_model_full(out, na, nq):
+    """Decode mode 8 of coq/C19/Run.v: (coarse dict or None, rest as parse_model)."""
+    if out == [2]:
+        return {"index_error": True}, {"status": "bad", "raw": out}
+    if len(out) < 6 or out[0] not in (0, 1):
+        return None, {"status": "bad", "raw": out[:8]}
+    co = {"delta": out[1] / 10 ** 15, "tie": out[2], "argmax": out[3], "max": out[4], "sum": out[5]}
+    if out[0] == 0:
+        return co, {"status": "singular"}
+    return co, parse_model([1] + out[6:], na, nq)
+
+
+def bins_float_vs_exact(case):
+    """True when float64 floor((t - tmin)/tbin) equals the exact floor for every event (the model bins exactly)."""
+    from fractions import Fraction
+    tsa, tsb, tbin = np.array(case["tsa"]), np.array(case["tsb"]), case["tbin"]
+    tmin = np.min([np.min(tsa), np.min(tsb)])
+    ft = Fraction(tbin)
+    for ts in (tsa, tsb):
+        fb = np.floor((ts - tmin) / tbin)
+        for t, b in zip(ts, fb):
+            if (Fraction(float(t)) - Fraction(float(tmin))) / ft // 1 != int(b):
+                return False
+    return True
+
+
 def parse_model(out, na, nq):
     """Decode coq/C19/Run.v `run` output."""
     if out == [0]:
@@ -121,6 +153,11 @@ def impl_run(case):
         n = (x.shape[-1] + 1) // 2
         ipeak = r[0] if forced is None else np.float64(n - 1 + forced)
         rec["ipeak"], rec["n"] = ipeak, n
+        xr = np.rint(x)
+        rec["corr"] = {"exact": bool(np.all(x == xr)), "noise": float(np.max(np.abs(x - xr))) if x.size else 0.0,
+                       "argmax_rounded": int(np.argmax(xr)) if x.size else -1,
+                       "max": int(xr.max()) if x.size else 0, "sum": int(xr.sum()),
+                       "ties": int((xr == xr.max()).sum()) if x.size else 0, "len": int(x.shape[-1])}
         return ipeak, r[1]
 
     res = {"status": "ok"}
@@ -139,6 +176,7 @@ def impl_run(case):
     if "ipeak" in rec:
         # same float expression as the source: (parabolic_max(...)[0] - x.shape[0] + 1) * tbin
         res["delta"] = float((rec["ipeak"] - rec["n"] + 1) * tbin)
+        res["n"], res["corr"] = int(rec["n"]), rec["corr"]
     if "miss_mask" in rec and "used_b" in rec and int((~rec["miss_mask"]).sum()) == len(rec["used_b"]):
         ib1 = np.full(len(tsa), -1, dtype=np.int64)
         ib1[~rec["miss_mask"]] = rec["used_b"]
@@ -160,7 +198,7 @@ def q30(x):
     return round(x / GRID) * GRID
 
 
-def gen_natural(rng, small=False, integer_span=False):
+def gen_natural(rng, small=False, integer_span=False, flavour=None):
     """A train of the property's quantifier: 30..300 events, irregular spacing in [0.5, 10] s,
     drift in [-100, 100] ppm, offset up to minutes of either sign, 0..5 events missing on each side
     at any position, jitter up to 0.1 ms, both modes.  Ground truth labels kept."""
@@ -168,16 +206,26 @@ def gen_natural(rng, small=False, integer_span=False):
     if small:
         n = rng.randrange(30, 61)
     lo, hi = rng.choice([(0.5, 10.0), (0.5, 10.0), (0.5, 1.0), (5.0, 10.0), (0.5, 3.0)])
+    if flavour == "long_drift":        # the first pass misses the train's ends, the second pass has real work
+        n, (lo, hi) = rng.randrange(270, 301), (7.0, 10.0)
     t0 = rng.choice([0.0, rng.uniform(0, 1000.0), rng.uniform(0, 20000.0)])
     t = t0 + np.cumsum([rng.uniform(lo, hi) for _ in range(n)])
     drift = rng.choice([0.0, 100.0, -100.0, rng.uniform(-100, 100), rng.uniform(-100, 100), rng.uniform(-20, 20)])
     off = rng.choice([0.0, rng.uniform(-1, 1), rng.uniform(-300, 300), rng.uniform(-300, 300), rng.uniform(-30, 30)])
+    if flavour == "long_drift":
+        drift = rng.choice([-1, 1]) * rng.choice([85.0, 100.0, rng.uniform(85, 100)])
     jmax = rng.choice([0.0, 1e-4, 1e-4, 1e-5, rng.uniform(0, 1e-4)])
     jit_a = rng.random() < 0.3
     ta = np.array([q30(v + (rng.uniform(-jmax, jmax) if jit_a else 0.0)) for v in t])
     tb = np.array([q30(v * (1 + drift * 1e-6) + off + rng.uniform(-jmax, jmax)) for v in t])
     ka, kb = rng.randrange(0, 6), rng.randrange(0, 6)
     pos = rng.random()
+    if flavour == "long_drift":        # missing events on both sides, different numbers: non-square candidate matrix
+        ka = rng.randrange(1, 6)
+        kb = rng.choice([k for k in range(1, 6) if k != ka])
+        pos = rng.choice([0.1, 0.1, 0.3, 0.9])
+    if flavour == "ends_missing":      # first / last events missing: held-out events outside the matched span
+        ka, kb, pos = rng.randrange(2, 6), rng.randrange(2, 6), 0.1
     def pick(k):
         if pos < 0.2:      # at the ends
             c = list(range(0, 3)) + list(range(n - 3, n))
@@ -209,19 +257,21 @@ def gen_natural(rng, small=False, integer_span=False):
             tb[-1] = q30(tb[-1] + sh * (1 + d))
         span = max(ta[-1], tb[-1]) - lo_t
         if not float(span).is_integer() or min(ta[-1] - ta[-2], tb[-1] - tb[-2]) < 0.45:
-            return gen_natural(rng, small=small, integer_span=True)     # rare: the later side flipped; draw again
+            return gen_natural(rng, small=small, integer_span=True, flavour=flavour)     # rare: the later side flipped; draw again
     la = [i for i in range(n) if i not in da]
     lb = [i for i in range(n) if i not in db]
     linear = rng.random() < 0.5
+    if flavour == "ends_missing":
+        linear = rng.random() < 0.15
     held = sorted(da | db)
     queries = [float(ta[i]) for i in held] + [float(ta[0]), float(ta[-1]), float(q30((ta[0] + ta[-1]) / 2))]
-    return {"kind": kind, "linear": linear, "tbin": 0.1, "forced_rel": None,
+    return {"kind": kind, "flavour": flavour, "linear": linear, "tbin": 0.1, "forced_rel": None,
             "tsa": [float(ta[i]) for i in la], "tsb": [float(tb[i]) for i in lb], "queries": queries,
             "truth": {"la": la, "lb": lb, "drift_ppm": drift, "offset": off, "jmax": jmax,
                       "jit_a": jit_a, "held": held, "n": n, "t_all": [float(v) for v in ta]}}
 
 
-def gen_boundary(rng):
+def gen_boundary(rng, free=False):
     """Tiny dense trains on a 1/64 s grid with a forced coarse offset: exercises every branch of
     both matching passes (single / several candidates, already-used partners, argmin, ties at the
     threshold, competition in the second pass).  Mostly outside the property's spacing domain."""
@@ -259,6 +309,10 @@ def gen_boundary(rng):
     if not b:
         b, lb = [a[0] - delta], [0]
     queries = [a[0], a[-1], (a[0] + a[-1]) / 2, a[0] - 1.0, a[-1] + 2.0]
+    if free:
+        # the coarse offset is left to the implementation (tiny exact correlations, frequent ties between lags)
+        return {"kind": "boundary_free", "linear": rng.random() < 0.5, "tbin": tbin, "forced_rel": None,
+                "tsa": [float(v) for v in a], "tsb": [float(v) for v in b], "queries": [float(v) for v in queries]}
     return {"kind": "boundary", "linear": rng.random() < 0.5, "tbin": tbin, "forced_rel": float(rel),
             "tsa": [float(v) for v in a], "tsb": [float(v) for v in b], "queries": [float(v) for v in queries],
             "exact_float_pass1": tbin != 0.1}
@@ -348,27 +402,38 @@ def oracle(case, res, meas):
     # held-out events: those removed from either side; error against the jitter-free true map
     nh = len(tr["held"])
     fa = res["fq"]
-    lo_x, hi_x = xs.min(), xs.max()
+    xs_sorted = np.sort(xs)
+    lo_x, hi_x = xs_sorted[0], xs_sorted[-1]
     key = "linear" if case["linear"] else "interp"
-    for i, k in enumerate(tr["held"]):
+
+    def tol_at(x):
+        """(inside?, tolerance).  Inside the matched span and for the linear map: HELD_TOL.  Interpolating mode
+        outside the span: the extrapolating line goes through the two outermost matched pairs, each within J of
+        the true map, hence is within J*(1 + 2*dist/gap) of it (rigorous for true pairs) — never the clamped value."""
+        if lo_x <= x <= hi_x:
+            return True, HELD_TOL
+        if case["linear"]:
+            return False, HELD_TOL
+        if x < lo_x:
+            dist, gap = lo_x - x, xs_sorted[1] - xs_sorted[0]
+        else:
+            dist, gap = x - hi_x, xs_sorted[-1] - xs_sorted[-2]
+        return False, J * (1 + 2 * dist / gap) + 1e-9 * (1 + abs(x))
+
+    for i in range(len(fa)):
         x = case["queries"][i]
         err = abs(fa[i] - (x * (1 + d) + off))
-        inside = lo_x <= x <= hi_x
-        mk = "max_heldout_err_s_%s_%s" % (key, "inside" if inside else "extrapolated")
+        inside, tol = tol_at(x)
+        what = "heldout" if i < nh else "train_ends_and_middle"
+        mk = "max_%s_err_s_%s_%s" % (what, key, "inside" if inside else "extrapolated")
         meas[mk] = max(meas.get(mk, 0.0), err)
-        if inside or case["linear"]:
-            if err > HELD_TOL:
-                bad.append(("fitted map is off by %.3g s at the held-out event t=%.6f" % (err, x),
-                            {"kind": "heldout"}))
-                break
-    for i in range(nh, len(fa)):
-        x = case["queries"][i]
-        err = abs(fa[i] - (x * (1 + d) + off))
-        inside = lo_x <= x <= hi_x
-        mk = "max_err_s_at_train_ends_and_middle_%s_%s" % (key, "inside" if inside else "extrapolated")
-        meas[mk] = max(meas.get(mk, 0.0), err)
-        if (inside or case["linear"]) and err > HELD_TOL:
-            bad.append(("fitted map is off by %.3g s at t=%.6f" % (err, x), {"kind": "map_error"}))
+        if not inside and not case["linear"]:
+            meas["n_interp_extrapolated_points"] = meas.get("n_interp_extrapolated_points", 0) + 1
+            meas["max_interp_extrapolation_err_over_bound"] = max(meas.get("max_interp_extrapolation_err_over_bound", 0.0), err / tol)
+        if err > tol:
+            bad.append(("fitted map is off by %.3g s (allowed %.3g s) at %s t=%.6f"
+                        % (err, tol, "the held-out event" if i < nh else "the point", x),
+                        {"kind": "heldout" if i < nh else "map_error"}))
             break
     return bad
 
@@ -428,18 +493,27 @@ def run(ctx):
     n_nat = 1500 if thorough else 140
     n_bnd = 12000 if thorough else 1500
     n_int = 150 if thorough else 25
+    n_long = 60 if thorough else 8
+    n_ends = 150 if thorough else 20
     cases = [gen_natural(rng) for _ in range(n_nat)] + [gen_boundary(rng) for _ in range(n_bnd)] + \
-            [gen_integer_span(rng) for _ in range(n_int)]
+            [gen_integer_span(rng) for _ in range(n_int)] + \
+            [gen_boundary(rng, free=True) for _ in range(n_bnd // 3)] + \
+            [gen_natural(rng, flavour="long_drift") for _ in range(n_long)] + \
+            [gen_natural(rng, flavour="ends_missing", small=rng.random() < 0.5) for _ in range(n_ends)]
     meas = {}
-    dist = {"natural": 0, "boundary": 0, "integer_span": 0, "linear": 0, "interp": 0, "impl_exceptions": 0,
+    dist = {"natural": 0, "boundary": 0, "boundary_free": 0, "integer_span": 0, "coarse_offset_compared": 0,
+            "coarse_offset_skipped_tie_under_fft": 0, "coarse_offset_skipped_bin_rounding": 0,
+            "correlation_stats_compared": 0, "correlation_fft_noise_max": 0.0, "linear": 0, "interp": 0, "impl_exceptions": 0,
             "model_singular": 0, "first_pass_observed": 0, "index_compare_skipped_near_threshold": 0,
             "second_pass_compare_skipped_near_threshold": 0, "second_pass_assigned_something": 0,
             "model_skipped_huge_second_pass": 0, "events_min": 10 ** 9, "events_max": 0}
-    inputs, keep, results = [], [], []
+    inputs, keep, results, pending = [], [], [], []
     nontrivial = set()
     for ci, case in enumerate(cases):
         res = impl_run(case)
         dist[case["kind"]] += 1
+        if case.get("flavour"):
+            dist[case["flavour"]] = dist.get(case["flavour"], 0) + 1
         dist["linear" if case["linear"] else "interp"] += 1
         dist["events_min"] = min(dist["events_min"], len(case["tsa"]))
         dist["events_max"] = max(dist["events_max"], len(case["tsa"]))
@@ -454,9 +528,9 @@ def run(ctx):
                 for what, tags in oracle(case, res, meas):
                     ctx.fail(what, slim(case), tags)
         if "delta" not in res:
-            if case["kind"] == "boundary" and res["status"] == "exc":
+            if case["kind"].startswith("boundary") and res["status"] == "exc":
                 continue          # raised before the offset was computed (degenerate sizes): nothing to compare
-            if case["kind"] != "boundary" and res["status"] == "exc":
+            if not case["kind"].startswith("boundary") and res["status"] == "exc":
                 continue          # already reported above
             ctx.disagree("coarse offset not observable (parabolic_max not called)", slim(case))
             continue
@@ -471,18 +545,72 @@ def run(ctx):
             nbm = len(case["tsb"]) - len({j for j in res["ib1"] if j >= 0})
             cost = nam * nbm * min(nam, nbm)
             meas["max_second_pass_matrix_cost"] = max(meas.get("max_second_pass_matrix_cost", 0), cost)
-            if cost > 300_000:
+            if cost > 2_000_000:
                 dist["model_skipped_huge_second_pass"] += 1
                 continue
-        inputs.append(enc_input(case, res["delta"]))
-        keep.append(ci)
-        results.append(res)
+        pending.append((ci, res))
     if dist["model_skipped_huge_second_pass"] > max(2, len(cases) // 100):
         ctx.disagree("the first pass left so many events unassigned on %d trains that the model comparison was skipped; "
                      "the unchanged code never does on these generators" % dist["model_skipped_huge_second_pass"],
                      {"kind": "skipped"}, {"kind": "skipped"})
     ext = common.Extracted(PROP)
+    # stage B: the whole function incl. the coarse offset (histogram length n observed), for every case whose offset
+    # was not forced.  Conclusive when the model's delta_t equals the implementation's; then everything downstream is
+    # compared from this run.  Otherwise (tie between lags under an FFT correlation, float-vs-exact binning) the case
+    # falls back to stage A (model fed the implementation's delta_t).
+    freeb = [(ci, res) for ci, res in pending if cases[ci].get("forced_rel") is None and "n" in res]
+    fin = [enc_input_full(cases[ci], res["n"]) for ci, res in freeb]
+    fout = ext.run_many(fin, nproc=min(6, max(1, len(fin) // 30))) if fin else []
+    conclusive = {}
+    for (ci, res), fi, fo in zip(freeb, fin, fout):
+        case = cases[ci]
+        co, mod = parse_model_full(fo, len(case["tsa"]), len(case["queries"]))
+        if co is None or co.get("index_error"):
+            ctx.disagree("whole-function model: %s where the implementation computed an offset"
+                         % ("bin index beyond the histogram" if co else "undecodable output"), slim(case), {"kind": case["kind"]})
+            continue
+        cr = res["corr"]
+        dist["correlation_stats_compared"] += 1
+        dist["correlation_fft_noise_max"] = max(dist["correlation_fft_noise_max"], cr["noise"])
+        if cr["noise"] > 1e-6:
+            ctx.disagree("cross-correlation of 0/1 histograms is not integer-valued (off by %.3g)" % cr["noise"], slim(case))
+            continue
+        if not bins_float_vs_exact(case):
+            dist["coarse_offset_skipped_bin_rounding"] += 1
+            continue
+        if (co["max"], co["sum"]) != (cr["max"], cr["sum"]) or (co["tie"] == 1) != (cr["ties"] > 1):
+            ctx.disagree("cross-correlation differs: model max/sum/tie %s, implementation %s"
+                         % ((co["max"], co["sum"], co["tie"]), (cr["max"], cr["sum"], cr["ties"])), slim(case), {"kind": case["kind"]})
+            continue
+        if co["tie"] and not cr["exact"]:
+            dist["coarse_offset_skipped_tie_under_fft"] += 1
+            continue
+        if co["argmax"] != cr["argmax_rounded"]:
+            ctx.disagree("correlation peak at index %d in the model, %d in the implementation" % (co["argmax"], cr["argmax_rounded"]),
+                         slim(case), {"kind": case["kind"]})
+            continue
+        if abs(co["delta"] - res["delta"]) > 1e-9:
+            ctx.disagree("coarse offset delta_t: model %.12f, implementation %.12f" % (co["delta"], res["delta"]),
+                         slim(case), {"kind": case["kind"]})
+            continue
+        dist["coarse_offset_compared"] += 1
+        conclusive[ci] = (fi, fo, mod)
+    for ci, res in pending:
+        if ci in conclusive:
+            continue
+        inputs.append(enc_input(cases[ci], res["delta"]))
+        keep.append(ci)
+        results.append(res)
     outs = ext.run_many(inputs, nproc=min(6, max(1, len(inputs) // 50)))
+    mods = [parse_model(outs[k], len(cases[ci]["tsa"]), len(cases[ci]["queries"])) for k, ci in enumerate(keep)]
+    for ci, res in pending:
+        if ci in conclusive:
+            fi, fo, mod = conclusive[ci]
+            inputs.append(fi)
+            outs.append(fo)
+            keep.append(ci)
+            results.append(res)
+            mods.append(mod)
     # parabolic_max (sub-bin peak interpolation) against its model, 1-D integer-valued arrays
     n_par = 20000 if thorough else 3000
     par_in, par_seen = [], set()
@@ -515,7 +643,7 @@ def run(ctx):
     sizes = []
     for k, ci in enumerate(keep):
         case, res = cases[ci], results[k]
-        mod = parse_model(outs[k], len(case["tsa"]), len(case["queries"]))
+        mod = mods[k]
         dis, _, flags = compare(case, res, mod)
         for d in dis:
             ctx.disagree(d, slim(case), {"kind": case["kind"]})
@@ -548,7 +676,10 @@ def run(ctx):
     ctx.measurements["bounds_used"] = {"recall_min": RECALL_MIN, "heldout_tol_s": HELD_TOL,
                                        "drift": "|err| <= 1e6*J/SD(matched tsa) + 1e-3 ppm (J = jitter bound)"}
     samples = []
-    for ci in (keep[:1] + keep[n_nat:n_nat + 3] + keep[-1:]):
+    firsts = {}
+    for ci in keep:
+        firsts.setdefault((cases[ci]["kind"], cases[ci].get("flavour")), ci)
+    for ci in list(firsts.values())[:8]:
         c = cases[ci]
         r = results[keep.index(ci)]
         samples.append({"kind": c["kind"], "linear": c["linear"], "tbin": c["tbin"], "n_tsa": len(c["tsa"]),
@@ -572,7 +703,7 @@ def run(ctx):
 
 def slim(case):
     """Replayable description (json floats round-trip exactly)."""
-    c = {k: case[k] for k in ("kind", "linear", "tbin", "forced_rel", "tsa", "tsb", "queries") if k in case}
+    c = {k: case[k] for k in ("kind", "flavour", "linear", "tbin", "forced_rel", "tsa", "tsb", "queries") if k in case}
     if "exact_float_pass1" in case:
         c["exact_float_pass1"] = case["exact_float_pass1"]
     if case.get("truth"):
